@@ -112,3 +112,35 @@ macro_rules! c11_radix_panic {
         });
     };
 }
+
+/// Wide values (above 128 bits) in power-of-two radices: the top digit is CONCRETE, so the bit length, the output length and every
+/// Vec capacity are constants for the solver and only the digit VALUES are symbolic - the allocation-heavy code that limits the
+/// fully symbolic harnesses to 16 bits becomes a linear problem.  Oracle: bit slicing at a symbolic output position.
+#[macro_export]
+macro_rules! c11_wide {
+    ($name:ident, $unw:expr, $T:ty, $D:ty, $N:expr, $R:expr, $LG:expr, $top:expr) => {
+        $crate::harness!($name, $unw, {
+            use $crate::util::*;
+            const DB: usize = <$D>::BITS as usize;
+            let mut xd: [$D; $N] = $crate::nd::nd();
+            let top: $D = $top;
+            xd[$N - 1] = top;
+            let x = <$T as BN<$D, $N>>::mk(xd);
+            let bits: usize = ($N - 1) * DB + (DB - top.leading_zeros() as usize);
+            let n: usize = (bits + $LG - 1) / $LG;
+            let le = x.to_radix_le($R);
+            assert!(le.len() == n, "digit count = ceil(bit length / log2(radix))");
+            let j: usize = $crate::nd::nd();
+            $crate::nd::assume(j < n);
+            let mut v: u8 = 0;
+            let mut t = 0;
+            while t < $LG { let p = j * $LG + t; if p < $N * DB && dbit(&xd, p as u32) { v |= 1 << t; } t += 1; }
+            assert!(le[j] == v, "digit j is the j-th group of log2(radix) bits");
+            let be = x.to_radix_be($R);
+            assert!(be.len() == n && be[n - 1 - j] == v, "to_radix_be is the reverse");
+            core::mem::forget(le); core::mem::forget(be);
+            $crate::reach!(j == n - 1, "most significant digit");
+            $crate::reach!(j == 0, "least significant digit");
+        });
+    };
+}
